@@ -190,6 +190,10 @@ FIRST = {
     'C09-5': ('analysis-error', [], 'sweep machine: loop peeling for tests on the first / last position, tests decided by the '
                                     'number-of-sites case, range(a, b, -1); step budget decided on elementary pieces; palindrome '
                                     'compared in a normal form of the schedule; C09.R4 step budget for L = 1, 2'),
+    # tenth batch (four properties with the fewest seeds)
+    'C01-10': ('reported', ['C02', 'C08', 'C11'], None), 'C12-10': ('reported', ['C13'], None), 'C13-7': ('reported', ['C12'], None),
+    'C09-6': ('silent', [], 'must-pass-through for the local TDVP steps (C08.R5 / new C09.R5): every exit returns the result of '
+                           'expm_krylov, the only exit handing the input back is guarded by dt == 0'),
 }
 
 
